@@ -5,7 +5,7 @@ From Verif Require Import Lib.Base Lib.Sx Lib.Err Lib.IO Model.Faults Proofs.Fau
 Open Scope N_scope.
 
 Definition wl (w w' : wtr) : Prop :=
-  wt_calls w = wt_calls w' /\ wt_failat w = wt_failat w' /\ wt_m w = wt_m w' /\ wt_term w = wt_term w' /\
+  (wt_calls w = wt_calls w' /\ wt_sticky w = wt_sticky w') /\ wt_failat w = wt_failat w' /\ wt_m w = wt_m w' /\ wt_term w = wt_term w' /\
   wt_failed w = wt_failed w' /\ map lenN (wt_peer w) = map lenN (wt_peer w').
 Definition bl (b b' : bufw) : Prop :=
   bw_n b = bw_n b' /\ bw_err b = bw_err b' /\ map lenN (bw_rev b) = map lenN (bw_rev b') /\
@@ -30,7 +30,7 @@ Lemma wt_write_len p p' w w' : lenN p = lenN p' -> wl w w' ->
   fst (fst (wt_write p w)) = fst (fst (wt_write p' w')) /\ snd (fst (wt_write p w)) = snd (fst (wt_write p' w')) /\
   wl (snd (wt_write p w)) (snd (wt_write p' w')).
 Proof.
-  intros Hp (Hc & Ha & Hm & Ht & Hf & Hpe). unfold wt_write, wt_err. rewrite Hf, Ha, Hc, Hm, Ht, Hp.
+  intros Hp ((Hc & Hs) & Ha & Hm & Ht & Hf & Hpe). unfold wt_write, wt_err. rewrite Hf, Ha, Hc, Hm, Ht, Hp, Hs.
   destruct (wt_failed w') eqn:Hf'.
   - cbn. repeat split; auto; congruence.
   - destruct (match wt_failat w' with Some i => i =? wt_calls w' | None => false end).
